@@ -521,7 +521,9 @@ class DNA(symbolic.Object):
     self._cloneable_metadata_keys = set()
     self._cloneable_userdata_keys = set()
     self._spec = None
-    if spec:
+    # NOTE: `len(spec)` is the number of decision points, thus a constant space
+    # is falsy.
+    if spec is not None:
       self.use_spec(spec)
 
   def _on_bound(self):
